@@ -189,7 +189,9 @@ pub fn run_main(args: &[String]) -> i32 {
             .unwrap_or_else(|| "release".into());
         let profiles: Vec<String> = if profile == "any" || profile == "both" { bins.iter().map(|(p, _)| p.clone()).collect() } else { vec![profile] };
         for p in profiles {
-            let o = run_replay(&bin_for(&p), &file, true);
+            // open findings are replayed strictly (nothing is excused); fixed ones with the known list
+            // active, so that only the regression of the fixed defect itself shows up
+            let o = run_replay(&bin_for(&p), &file, f.status == "open");
             replays_run += 1;
             match (f.status.as_str(), o.code) {
                 ("open", 1) => {
